@@ -531,6 +531,9 @@ def check(ctx, pid, n_random, dfs_bound, dfs_cap, corpus=(), model=None):
         f = oracle(sc)
         if f:
             ctx.fail(case, f[0], sig=None, expected='property %s' % pid, actual=f[0])
+    if pid in ('C03', 'C04', 'C11'):          # byte-level replay on the composed model (Model/SessionE2E.v), re-segmented streams
+        from . import e2e_check
+        e2e_check.replay_runs(ctx, pid, runs, n_sample=150 if ctx.tier == 'quick' else 1500, n_seg=120 if ctx.tier == 'quick' else 2500)
 
 def search(ctx, pid, seeds, n=1500):
     oracle = ORACLES[pid]
@@ -558,6 +561,9 @@ def search(ctx, pid, seeds, n=1500):
         f = oracle(sc)
         if f:
             return dict(case=describe(sc.spec, sc.decisions_used), what=f[0], sig=None, expected='property %s' % pid, actual=f[0])
+    if pid in ('C03', 'C04', 'C11'):
+        from . import e2e_check
+        return e2e_check.search_seg(ctx, pid)
     return None
 
 def replay(doc, pid):
@@ -570,6 +576,9 @@ def replay(doc, pid):
     spec['server'] = [tuple(a) for a in spec['server']]
     sc = run_case(spec, decisions=list(c['decisions']), rng_after=False)
     f = ORACLES[pid](sc)
+    if not f and c.get('e2e'):
+        from . import e2e_check
+        f = e2e_check.oracle_stream(sc)
     print('case      :', c)
     print('outcomes  :', sc.outcomes, 'connected', sc.connected_end, 'result', sc.result)
     print('expected  : property %s holds' % pid)
